@@ -136,7 +136,7 @@ func caseText(c Case) string {
 // TestNames: the attacks of TestAttempts on constants whose name is drawn from every shape the definition allows, and
 // plain re-bindings on names just outside of it.
 func TestNames(t *testing.T) {
-	pbt.Check(t, 800, 100000, func(rt *rapid.T) {
+	pbt.Check(t, 800, 60000, func(rt *rapid.T) {
 		name := constName(rt)
 		c := Case{Init: rapid.SampledFrom(initPool).Draw(rt, "init")}
 		nt := false
@@ -369,7 +369,7 @@ func localCase(t *rapid.T) (Case, bool) {
 
 // TestLocal: the constant is local to a function and the attempts come from closures that outlived the call.
 func TestLocal(t *testing.T) {
-	pbt.Check(t, 800, 100000, func(rt *rapid.T) {
+	pbt.Check(t, 800, 60000, func(rt *rapid.T) {
 		c, nt := localCase(rt)
 		if err := check(c); err != nil {
 			pbt.Fail(rt, "local", c, "%v", err)
